@@ -155,7 +155,7 @@ impl SiteResolver {
 
     fn site(&mut self, p: &PanicRec) -> Site {
         // (C06_REPO_ROOT: scratch copies of /repo used for mutation pilots)
-        let root = std::env::var("C06_REPO_ROOT").unwrap_or_else(|_| "/repo".to_string());
+        let root = repo_root();
         if let Some(rel) = p.file.strip_prefix(&format!("{}/", root.trim_end_matches('/'))) {
             let function = self.function_at(&p.file, p.line);
             Site { file: rel.to_string(), function }
@@ -175,6 +175,12 @@ impl SiteResolver {
             Site { file, function }
         }
     }
+}
+
+/// the tree the harness was built against (`KOTO_REPO` is set by tools/mutcheck.sh for scratch
+/// worktrees; `C06_REPO_ROOT` by hand)
+fn repo_root() -> String {
+    std::env::var("C06_REPO_ROOT").or_else(|_| std::env::var("KOTO_REPO")).unwrap_or_else(|_| "/repo".to_string())
 }
 
 fn strip_hash(f: &str) -> String {
